@@ -140,7 +140,7 @@ Proof.
   intros cfg u d req h msat mpp id. unfold request_melt_quote, fail.
   destruct (negb u); [ret_ok |]. destruct (negb d); [ret_ok |]. destruct (msat =? 0); [ret_ok |].
   apply ADo; intro mq.
-  set (internal := match mq with ROk (Some _) => true | _ => false end).
+  set (internal := match same_invoice mq req with Some _ => true | None => false end).
   assert (Hplan : forall (X : Type) (k : result (bool * Z * Z) -> prog (result X)),
              (forall e, e <> ELn -> allret (errs not_ln) (k (Err e))) ->
              (forall t, allret (errs not_ln) (k (Ok t))) ->
